@@ -40,3 +40,15 @@ REVERT_D7 = [
 VS_HEXKEY_FILTER = "        if not is_hex_key(pubkey_hex):\n            print('Ignoring signature from \"key\" with public key value that does not look like a key value: ' + ascii(pubkey_hex))\n            continue\n"
 VS_GPGSHAPE_FILTER = "        if gpg and (not is_gpg_signature(signature)):\n            print('Ignoring \"signature\" that does not look like a gpg signature value: ' + ascii(signature))\n            continue\n"
 VS_RAWSHAPE_FILTER = "            if not is_signature(signature):\n                print('Ignoring \"signature\" that does not look like a hex signature value: ' + ascii(signature))\n                continue\n"
+
+# --- verify_root building blocks
+VR_VERSION_IF = "    if trusted_root_version + 1 != untrusted_root_version:\n"
+VR_CALL_OLD = "    verify_signable(untrusted_new_root_metadata, authorized_pub_keys, expected_threshold, gpg=True)\n"
+VR_CALL_NEW = "    verify_signable(untrusted_new_root_metadata, new_authorized_pub_keys, new_expected_threshold, gpg=True)\n"
+VR_TYPE_IF = "    if trusted_current_root_metadata['signed']['type'] != 'root' or untrusted_new_root_metadata['signed']['type'] != 'root':\n"
+VR_CHECK_T = "    checkformat_delegating_metadata(trusted_current_root_metadata)\n"
+VR_CHECK_U = "    checkformat_delegating_metadata(untrusted_new_root_metadata)\n"
+
+REVERT_D2 = [(A, "        checkformat_delegating_metadata({'signatures': {}, 'signed': untrusted_delegated_metadata['signed']})\n", "        checkformat_delegating_metadata(untrusted_delegated_metadata)\n")]
+REVERT_D5 = [("__main__", "sys.exit(cli.cli())", "cli.cli()")]
+REVERT_D6 = [("cli", "        print('ABORTED.  Expected key file to contain only a hex string representation of an ed25519 key.  It does not.')\n        return 1\n", "        print('ABORTED.  Expected key file to contain only a hex string representation of an ed25519 key.  It does not.')\n        return\n")]
